@@ -690,7 +690,52 @@ def r10_9(repo: Repo, rule: str = "R10.9", only: Optional[Set[str]] = None) -> R
     return rr
 
 
-RULES = [r10_1, r10_2, r10_3, r10_4, r10_5, r10_6, r10_7, r10_8, r10_9]
+def r10_10(repo: Repo, rule: str = "R10.10") -> RuleResult:
+    """arr_unique builds its keep-mask as `concatenate((ones(1), aux[1:] != aux[:-1]))`: for an empty input the mask has
+    length 1 and the array length 0, so `aux[mask]` reads one element past a zero-length buffer (an IndexError with
+    bounds checking or without compilation).  Every caller must therefore exclude the all-empty case first."""
+    from .common import rel_under
+
+    rr = RuleResult(rule, "arr_unique is only called on an array known to be non-empty (callers return early for empty inputs)", floor=1)
+    DIST = "vectorizers/distances.py"
+    uniq = repo.func(DIST, "arr_unique")
+    # if arr_unique guards itself, every caller is fine
+    self_guard = any(isinstance(n, ast.If) and any(isinstance(x, ast.Return) for x in n.body) and
+                     any(norm(c).replace(" ", "") in ("%s.shape[0]==0" % uniq.params[0], "len(%s)==0" % uniq.params[0], "%s.size==0" % uniq.params[0])
+                         for c in ast.walk(n.test) if isinstance(c, ast.Compare)) for n in uniq.node.body)
+    for f in repo.module(DIST).all_funcs:
+        for c in repo.calls_in(f):
+            if uniq not in repo.resolve_call(f, c):
+                continue
+            construct = "arr_unique(%s)" % short(c.args[0], 40) if c.args else "arr_unique()"
+            if self_guard:
+                rr.ok(f, construct, "arr_unique returns early for an empty array itself", c.lineno)
+                continue
+            parts = [x.id for x in ast.walk(c.args[0]) if isinstance(x, ast.Name) and x.id in f.params]
+            g = CFG(f.node)
+            pm = parents_map(f.node)
+            nid = g.node_for(enclosing_stmt(c, pm))
+            known = set()
+            for t, lab in g.guards_of(nid):
+                ta = g.nodes[t].ast
+                if not isinstance(ta, ast.AST):
+                    continue
+                r = rel_under(ta, lab)
+                if r is None:
+                    continue
+                for p_ in parts:
+                    lens = _len_forms(p_)
+                    if (r[0] == "ne" and any(frozenset((L, "0")) == r[1] for L in lens)) or (r[0] == "lt" and r[1] == "0" and r[2] in lens):
+                        known.add(p_)
+            if known:
+                rr.ok(f, construct, "reached only when %s is non-empty" % sorted(known), c.lineno)
+            else:
+                rr.bad(f, construct, "arr_unique is reached without excluding empty inputs (%s): for two empty index arrays its mask `concatenate((ones(1), "
+                       "aux[1:] != aux[:-1]))` is one longer than the array and `aux[mask]` reads past a zero-length buffer" % sorted(set(parts)), c.lineno)
+    return rr
+
+
+RULES = [r10_1, r10_2, r10_3, r10_4, r10_5, r10_6, r10_7, r10_8, r10_9, r10_10]
 
 CLAIM = (
     "R10.1 definite assignment (with the for-loop zero-trip edge) in all njit functions; R10.2 every np.searchsorted "
@@ -700,7 +745,8 @@ CLAIM = (
     "lists are stored on every iteration of their filling loop (no one-armed conditional around the store); R10.7 cursors that "
     "index parameter arrays inside a while (merge) loop are strictly bounded by the loop test against the length of an array they index; "
     "R10.8 a read of the last element `A[len(A) - 1]` of a parameter array is dominated by a test that A is non-empty; R10.9 no "
-    "computed index is pinned to a narrow integer type through @njit(locals=...)."
+    "computed index is pinned to a narrow integer type through @njit(locals=...); R10.10 arr_unique, whose keep-mask is one longer than an "
+    "empty input, is only called where an input is known to be non-empty."
 )
 NOT_DECIDED = (
     "indices that are data (window_size_array[i, target_word], baseline_probabilities[idx], token ids beyond a "
